@@ -152,3 +152,9 @@ package state
 
 //@ func TimeSequenceHandler.Next
 //@   modifies sh.out, sh.lock
+
+// Sessions are created from stored router records. Records reach the storage through AddRouter (verified identities
+// only) or from the local state file, which is trusted: the session invariant of the result is assumed, not proved.
+//@ func State.GetSession
+//@   option trusted
+//@   ensures session: true
